@@ -479,7 +479,7 @@ impl Harness for C19 {
                 soft_s: 60,
             },
             Tier::Thorough => Budget {
-                runs: 12_000_000,
+                runs: 30_000_000,
                 soft_s: 900,
             },
         }
